@@ -157,6 +157,12 @@ class MemStream:
     def close(self):
         self.closed = True
 
+    def __enter__(self):
+        return self
+
+    def __exit__(self, *a):
+        self.close()
+
 
 class FakePath:
     fs: FS = None
@@ -492,3 +498,92 @@ def validate_storage_models() -> int:
             assert list(a.keys()) == list(b.keys()) and len(a) == len(b)
         n += 1
     return n
+
+
+class HandleCodec:
+    """msgpack.dumps/loads model: the packed bytes are an opaque concrete handle; the value is normalised the way
+    a msgpack round trip (dumps(use_single_float=True) / loads(use_list=False)) changes it:
+    list/tuple -> tuple, IntEnum/bool/int -> int/bool, float -> float32-rounded float, dict -> dict, str/bytes/None kept."""
+    store = []
+
+    @classmethod
+    def reset(cls):
+        cls.store = []
+
+    @classmethod
+    def norm(cls, x, single=True):
+        import enum
+        if x is None or isinstance(x, (bool, str, bytes)):
+            return x
+        if isinstance(x, enum.IntEnum):
+            return int(x)
+        if isinstance(x, int):
+            if not (-2 ** 63 <= x < 2 ** 64):
+                raise OverflowError("Integer value out of range")
+            return x
+        if isinstance(x, float):
+            if single:
+                import struct
+                return struct.unpack(">f", struct.pack(">f", x))[0]
+            return x
+        if isinstance(x, (list, tuple)):
+            return tuple(cls.norm(y, single) for y in x)
+        if isinstance(x, dict):
+            return {cls.norm(k, single): cls.norm(v, single) for k, v in x.items()}
+        raise TypeError(f"can not serialize {type(x).__name__!r} object")
+
+    @classmethod
+    def dumps(cls, obj, use_single_float=False, **kw):
+        cls.store.append(cls.norm(obj, use_single_float))
+        return b"#" + str(len(cls.store) - 1).encode() + b"#"
+
+    packb = dumps
+
+    @classmethod
+    def loads(cls, b, use_list=True, **kw):
+        if isinstance(b, (bytes, bytearray)) and bytes(b[:1]) == b"#" and bytes(b[-1:]) == b"#":
+            v = cls.store[int(bytes(b[1:-1]).decode())]
+            return v if not use_list else cls._listify(v)
+        import msgpack
+        return msgpack.loads(bytes(b), use_list=use_list, **kw)
+
+    unpackb = loads
+
+    @classmethod
+    def _listify(cls, v):
+        if isinstance(v, tuple):
+            return [cls._listify(x) for x in v]
+        if isinstance(v, dict):
+            return {k: cls._listify(x) for k, x in v.items()}
+        return v
+
+
+def validate_handle_codec() -> int:
+    import msgpack, enum, math
+
+    class E1(enum.IntEnum):
+        A = 3
+    cases = [None, True, 0, -5, 2 ** 40, 1.5, 0.1, -3.25e10, "", "ab", b"", b"\x00\xff", (1, 2), [1, [2, (3,)]], {"a": 1, "b": {"c": [1, 2.5]}},
+             E1.A, (E1.A, "x", None, 0.3), {1: "x"}, float("inf")]
+    n = 0
+    for c in cases:
+        real = msgpack.loads(msgpack.dumps(c, use_single_float=True), use_list=False, strict_map_key=False)
+        HandleCodec.reset()
+        mod = HandleCodec.loads(HandleCodec.dumps(c, use_single_float=True), use_list=False)
+        assert real == mod and type(real) == type(mod), (c, real, mod)
+        n += 1
+    x = float("nan")
+    r = msgpack.loads(msgpack.dumps(x, use_single_float=True))
+    assert math.isnan(r) and math.isnan(HandleCodec.norm(x))
+    for bad in ({1, 2}, object()):
+        try:
+            msgpack.dumps(bad); a = "ok"
+        except TypeError:
+            a = "err"
+        try:
+            HandleCodec.dumps(bad); b = "ok"
+        except TypeError:
+            b = "err"
+        assert a == b
+        n += 1
+    return n + 1
